@@ -207,7 +207,7 @@ func vc12Seeds(dir string, rng *vh.Rng) (seeds []c12h.Seed, err error) {
 		e1 := s.entry(rng, t1)
 		b := s.block(rng, 7, false, e1)
 		if err := add("car-1block", s, b, want{1, 1}); err != nil {
-			return nil, err
+			return seeds, err
 		}
 	}
 	{ // two blocks: metadata split into 3 frames, two transactions, rewards node; an entry after the last block
@@ -222,23 +222,24 @@ func vc12Seeds(dir string, rng *vh.Rng) (seeds []c12h.Seed, err error) {
 		_ = s.block(rng, 9, false, e3)
 		_ = s.entry(rng) // trailing object: delivered as a parentless group
 		if err := add("car-2blocks", s, b1, want{3, 3}); err != nil {
-			return nil, err
+			return seeds, err
 		}
 	}
 	{ // a block without entries
 		s := &vc12Stream{}
 		b := s.block(rng, 1, false)
 		if err := add("car-emptyblock", s, b, want{1, 0}); err != nil {
-			return nil, err
+			return seeds, err
 		}
 	}
-	for i := range seeds {
-		in := c12h.Input{Entry: "accumulate", Data: seeds[i].Data}
+	seeds = c12h.KeepSeeds(seeds, func(i int, s *c12h.Seed) error {
+		in := c12h.Input{Entry: "accumulate", Data: s.Data}
 		o := vc12Exec(&in)
-		if o.Class != "ok" || int(o.Nums[0]) != wants[i].groups || int(o.Nums[1]) != wants[i].txs || int(o.Nums[2]) != wants[i].txs {
-			return nil, fmt.Errorf("seed %s: valid stream gave %s/%s %v, expected %d groups and %d transactions with parsed metadata", seeds[i].Name, o.Class, o.Fine, o.Nums, wants[i].groups, wants[i].txs)
+		if o.Class != "ok" || len(o.Nums) < 3 || int(o.Nums[0]) != wants[i].groups || int(o.Nums[1]) != wants[i].txs || int(o.Nums[2]) != wants[i].txs {
+			return fmt.Errorf("valid stream gave %s/%s %v, expected %d groups and %d transactions with parsed metadata", o.Class, o.Fine, o.Nums, wants[i].groups, wants[i].txs)
 		}
-	}
+		return nil
+	})
 	return seeds, nil
 }
 
